@@ -1414,6 +1414,17 @@ def _validate_patch_target(r: "Repo", repo_path: bytes, tree_path: bytes) -> byt
     return fs_path
 
 
+def _refuse_symlink_target(fs_path: bytes, tree_path: bytes) -> None:
+    """Refuse to write file content through a symlink left in the work tree.
+
+    ``open(..., "wb")`` follows a symlink in the final path component, so a
+    tracked link such as ``cfg -> .git/config`` would redirect the write into
+    the control directory. git refuses such a patch (wrong type) as well.
+    """
+    if os.path.islink(fs_path):
+        raise ValueError(f"refusing to write through symlink: {tree_path!r}")
+
+
 def _apply_rename_or_copy(
     r: "Repo",
     src_path: bytes,
@@ -1502,6 +1513,7 @@ def _apply_rename_or_copy(
 
     # Write to destination
     if not cached:
+        _refuse_symlink_target(dst_fs_path, dst_stripped)
         os.makedirs(os.path.dirname(dst_fs_path), exist_ok=True)
         with open(dst_fs_path, "wb") as f:
             f.write(content)
@@ -1670,6 +1682,7 @@ def apply_patches(
 
                 # Write binary file
                 if not cached:
+                    _refuse_symlink_target(fs_path, tree_path)
                     os.makedirs(os.path.dirname(fs_path), exist_ok=True)
                     with open(fs_path, "wb") as f:
                         f.write(binary_content)
@@ -1836,6 +1849,7 @@ def apply_patches(
             # File addition or modification
             if not cached:
                 # Write to working tree
+                _refuse_symlink_target(fs_path, tree_path)
                 os.makedirs(os.path.dirname(fs_path), exist_ok=True)
                 with open(fs_path, "wb") as f:
                     f.write(result_content)
